@@ -158,6 +158,26 @@ var dataOvRe = regexp.MustCompile(` data-ov="([a-z_]+)"`)
 func (c *c20Case) Run(ctx *core.Ctx) {
 	ctx.NonTrivial()
 	switch c.Part {
+	case "sequence":
+		// the documents of c.Over rendered one after the other by ONE Markdown renderer: each agrees
+		// with the reference for that document alone (what a document defines - link references,
+		// heading ids - ends with it)
+		m := markdown.New(nil)
+		for i, name := range c.Over {
+			src := c10Docs[name]
+			var buf bytes.Buffer
+			ctx.Eval(1)
+			if err := m.RenderBytes(&buf, []byte(src)); err != nil {
+				ctx.Violation("render-error", "sequence", name, fmt.Sprintf("documents %v: %v", c.Over[:i+1], err))
+				return
+			}
+			got, want := htmlcmp.String(c20Project(buf.String())), htmlcmp.String(c20Project(c20Reference(src)))
+			if alone, _ := mdRender(nil, src); got != want && htmlcmp.String(c20Project(alone)) == want {
+				ctx.Violation("reference-mismatch", "sequence", name, fmt.Sprintf("document %q rendered after %v by one renderer:\nvuego %q\n ref  %q", name, c.Over[:i], clip(buf.String(), 400), clip(c20Reference(src), 400)))
+				return
+			}
+		}
+		ctx.Outcome(strings.Join(c.Over, ">"))
 	case "inline", "blocks":
 		ctx.Eval(1)
 		out, err := mdRender(nil, c.Src)
@@ -395,6 +415,17 @@ func init() {
 			sizes := func(k int) bool { return k <= 2 || k == n }
 			if tier == "thorough" {
 				sizes = func(k int) bool { return k <= 3 || k >= n-2 }
+			}
+			for _, a := range c10DocNames {
+				for _, b := range c10DocNames {
+					if strings.HasPrefix(c10Docs[a], "---") || strings.HasPrefix(c10Docs[b], "---") {
+						continue // front-matter is Load's business, not RenderBytes'
+					}
+					emit(&c20Case{Part: "sequence", Src: a + ">" + b, Over: []string{a, b}})
+					for _, c3 := range []string{"use", "imguse", "head"} {
+						emit(&c20Case{Part: "sequence", Src: a + ">" + b + ">" + c3, Over: []string{a, b, c3}})
+					}
+				}
 			}
 			emit(&c20Case{Part: "override", Src: allConstructs, Site: true})
 			for mask := 1; mask < 1<<n; mask++ {
